@@ -360,3 +360,31 @@ PROPS["C14"] = pbt(
     thorough={"cases": 80000, "modes": [["grid", str(k), "16"] for k in range(16)]},
     floors={},
 )
+
+PROPS["C20"] = pbt(
+    "pbt_c20", "pbt_c20.cpp", level="fault_enumeration",
+    env={"ASAN_OPTIONS": "exitcode=99:detect_leaks=1:quarantine_size_mb=16:abort_on_error=0:allocator_may_return_null=1"},
+    fill_differential=True,
+    valgrind_sample={"quick": 150, "thorough": 3000},
+    rule=("scenarios, each in a forked child: (a) API histories over three objects (constructors incl. option strings "
+          "with repeated items, typed setters, getters, extended getter, defaulted getters, merges, writes to existing "
+          "and missing directories, refused calls, frees of NULL); (b) layered reads of C01 trees through "
+          "readConfig[WithCallback], readDirsWithCallback, readDirsHistoryWithCallback, readFileWithCallback with a "
+          "fault injected at a generated consulted index: callback rejection, foreign owner under econf_requireOwner, "
+          "malformed line, dangling symlink, file unlinked from inside the callback; (c) option strings with unknown "
+          "and repeated items; (d) failing single-file reads. Oracle: out-pointers NULL / untouched sentinel / valid "
+          "object; after the documented frees and resetting the global lists __lsan_do_recoverable_leak_check() = 0; "
+          "ASan silent; per-case digests identical under malloc_fill_byte 0xAA and 0x55 (uninitialised reads); a "
+          "sample under valgrind memcheck. non-trivial = a failing call or a fault at consulted index >= 1; distinct = "
+          "hash of (scenario, entry point, fault, index, tree shape / command log)"),
+    technique="fault injection over generated scenarios with LeakSanitizer recoverable checks per forked case, heap-fill differential, valgrind sample; rapidcheck",
+    level_text=("fault enumeration by generation: every scenario ends with an explicit leak check in its own process, "
+                "so a leak on any failure path is attributed to the case that caused it and can be shrunk; 24k "
+                "(quick) / 1M (thorough) scenarios, each run under two heap-fill patterns."),
+    level_note="allocation-failure paths are not injected; LeakSanitizer reachability semantics (memory reachable from library statics is not a leak)",
+    quick={"cases": 24000},
+    thorough={"cases": 1000000},
+    floors={"fault_in_dropin|layered_read": 0.30, "fault_callback_rejection|layered_read": 0.10, "fault_malformed_line|layered_read": 0.10,
+            "fault_dangling_symlink|layered_read": 0.08, "fault_vanished_in_callback|layered_read": 0.08,
+            "fault_foreign_owner|layered_read": 0.08},
+)
